@@ -120,6 +120,7 @@ type verifStateOpts struct {
 	Burst, Rate      int
 	DenyFPs          []string
 	PublicKeysFile   bool
+	PublicKeysList   []string // fixture names to list in the public keys file (default: the CA keys in use)
 	DisableNormalize bool
 	VIP              bool   // symantec VIP enabled (pointed at a fake by InstallFakeVIP)
 	OktaDomain       string // okta password + 2FA backend (reached through verifNet)
@@ -296,7 +297,14 @@ func verifNewEnv(o verifStateOpts) (*verifEnv, error) {
 		fmt.Fprintf(&y, "    client_ca_filename: %q\n", filepath.Join(dir, "clientca.pem"))
 	}
 	if o.PublicKeysFile {
-		os.WriteFile(filepath.Join(dir, "kmkeys.pub"), verifAuthorizedKeysFor(o.CAKey, o.Ed25519), 0644)
+		content := verifAuthorizedKeysFor(o.CAKey, o.Ed25519)
+		if o.PublicKeysList != nil {
+			content = nil
+			for _, fx := range o.PublicKeysList {
+				content = append(content, []byte(verifSSHAuthorizedKey(verifSigner(fx).Public()))...)
+			}
+		}
+		os.WriteFile(filepath.Join(dir, "kmkeys.pub"), content, 0644)
 		fmt.Fprintf(&y, "    keymaster_public_keys_filename: %q\n", filepath.Join(dir, "kmkeys.pub"))
 	}
 	y.WriteString(o.ExtraBase)
@@ -369,6 +377,16 @@ func (e *verifEnv) UpsertSigned(user string, dataType int, expiration int64, dat
 	return e.State.UpsertSigned(user, dataType, expiration, data)
 }
 func (e *verifEnv) GetSigned(user string, dataType int) (bool, string, error) {
+	return e.State.GetSigned(user, dataType)
+}
+// GetSignedFrom reads a signed record through the daemon's own reader, from the
+// primary store or (forced, the daemon's own switch) from the offline cache.
+func (e *verifEnv) GetSignedFrom(user string, dataType int, cache bool) (bool, string, error) {
+	saved := e.State.remoteDBQueryTimeout
+	if cache {
+		e.State.remoteDBQueryTimeout = 0
+	}
+	defer func() { e.State.remoteDBQueryTimeout = saved }()
 	return e.State.GetSigned(user, dataType)
 }
 func (e *verifEnv) DeleteSigned(user string, dataType int) error {
